@@ -1,5 +1,5 @@
 """Property -> rules registry.  Rules are added here as they are built; a property without rules is not claimed."""
-from .rules import determinism, panics, wiring, traversal, annot, shape, hygiene, enums, shrinking, fresh, sharing, codegen, abi, pmoves, labels, runtime, typing as typing_rules, formatting, linear, memory, termination, focus, inputs
+from .rules import determinism, panics, wiring, traversal, annot, shape, hygiene, enums, shrinking, fresh, sharing, codegen, abi, pmoves, labels, runtime, typing as typing_rules, formatting, linear, memory, termination, focus, inputs, statements
 
 
 def _thorough_only(rule):
@@ -59,7 +59,7 @@ PROPS = {
                         "immediates of the memory-management sequences are compile-time constants (field offsets <= 64, stack offsets < 2048)"],
     },
     "C11": {
-        "rules": [pmoves.rule_pmoves, pmoves.rule_cycle, pmoves.rule_subst_order, codegen.rule_isel_mov_only],
+        "rules": [pmoves.rule_pmoves, statements.rule_stmt_substitute, pmoves.rule_cycle, pmoves.rule_subst_order, codegen.rule_isel_mov_only],
         "text": "Backend-specific pieces of the simultaneous-assignment scheme, decided per backend on folded emission lists run on the "
                 "symbolic machine: the value a cycle parks with store_temporary survives every kind of intermediate `mov` that can "
                 "occur while it is parked and reaches the restored temporary; the guard contains_spill_edge is folded over every "
@@ -83,7 +83,7 @@ PROPS = {
     },
     "C06": {
         "rules": [codegen.rule_isel("x86_64"), enums.rule_enum_dispatch, traversal.rule_trav(["axcut2backend::statements::code_statement::CodeStatement"]),
-                  abi.rule_abi_cached("x86_64"), pmoves.rule_cycle, pmoves.rule_pmoves, memory.rule_mem("x86_64")],
+                  abi.rule_abi_cached("x86_64"), pmoves.rule_cycle, pmoves.rule_pmoves, memory.rule_mem("x86_64"), statements.rule_stmt("x86_64")],
         "text": "Instruction-selection templates of the x86-64 backend validated for every reachable operand placement (environment "
                 "positions straddling the register/spill boundary): each emission function (add, sub, mul, div, rem, mov, "
                 "load_immediate with boundary literals of every magnitude, the twelve conditional jumps) is folded from its MIR into "
@@ -97,7 +97,7 @@ PROPS = {
     },
     "C07": {
         "rules": [codegen.rule_isel("aarch64"), enums.rule_enum_dispatch, traversal.rule_trav(["axcut2backend::statements::code_statement::CodeStatement"]),
-                  abi.rule_abi_cached("aarch64"), pmoves.rule_cycle, pmoves.rule_pmoves, memory.rule_mem("aarch64")],
+                  abi.rule_abi_cached("aarch64"), pmoves.rule_cycle, pmoves.rule_pmoves, memory.rule_mem("aarch64"), statements.rule_stmt("aarch64")],
         "text": "Instruction-selection templates of the AArch64 backend validated for every reachable operand placement (environment "
                 "positions straddling the register/spill boundary): each emission function (add, sub, mul, div, rem, mov, "
                 "load_immediate with boundary literals of every magnitude, the twelve conditional jumps) is folded from its MIR into "
@@ -111,7 +111,7 @@ PROPS = {
     },
     "C08": {
         "rules": [codegen.rule_isel("rv64"), enums.rule_enum_dispatch, traversal.rule_trav(["axcut2backend::statements::code_statement::CodeStatement"]),
-                  pmoves.rule_cycle, pmoves.rule_pmoves, memory.rule_mem("rv64")],
+                  pmoves.rule_cycle, pmoves.rule_pmoves, memory.rule_mem("rv64"), statements.rule_stmt("rv64")],
         "text": "Instruction-selection templates of the RISC-V backend validated for every reachable operand placement (environment "
                 "positions straddling the register/spill boundary): each emission function (add, sub, mul, div, rem, mov, "
                 "load_immediate with boundary literals of every magnitude, the twelve conditional jumps) is folded from its MIR into "
